@@ -50,8 +50,11 @@ def value(self, x, x2=None, action=None, lower=None, upper=None):
             yfit[lower[i]:upper[i] + 1] = np.dot(action[lower[i]:upper[i] + 1, :], goodcoeff[i * self.npoly + spot])
     yy = yfit.copy()
     yy[xsort] = yfit
+    mask = np.ones(x.shape, dtype='bool')
     gb = self.breakpoints[goodbk]
-    mask = (x >= gb[self.nord - 1]) & (x < gb[n])
+    outside = (x < gb[self.nord - 1]) | (x > gb[n])
+    if outside.any():
+        mask[outside] = False
     hmm = (np.diff(goodbk) > 2).nonzero()[0]
     for jj in range(hmm.size):
         inside = (x >= self.breakpoints[goodbk[hmm[jj]]]) & (x <= self.breakpoints[goodbk[hmm[jj] + 1] - 1])
